@@ -14,6 +14,7 @@ import (
 	"encoding/hex"
 	"encoding/json"
 	"fmt"
+	"io"
 	"math/big"
 	"os"
 	"os/exec"
@@ -94,7 +95,14 @@ type job struct {
 	Force  bool     `json:"force,omitempty"`
 	Kind   string   `json:"kind"` // tree dv V torepr
 	Opts   []string `json:"opts,omitempty"`
+	// Chunks: the same bytes presented as a concatenation of parts cut at these
+	// byte offsets (a bitio.MultiReader, as fq builds for binary arrays and
+	// multi-member data): decoding is a function of the input BYTES, so the
+	// result must equal the flat decode's
+	Chunks []int `json:"chunks,omitempty"`
 }
+
+func (j job) flat() job { j.Chunks = nil; return j }
 
 func (j job) key() string { b, _ := json.Marshal(j); return string(b) }
 
@@ -159,8 +167,17 @@ func render(x any) string {
 		if err != nil {
 			return "bits:clone-error"
 		}
-		n, _ := bitio.Copy(&bitioBuf{&bb}, c)
-		return fmt.Sprintf("bits:%d:%s", n, sumHex(bb.Bytes()))
+		// bit-exact whatever the sizes of the reader's short reads are
+		n, err := c.SeekBits(0, io.SeekEnd)
+		if err != nil {
+			return "bits:len-error"
+		}
+		bb.Grow(int(bitio.BitsByteCount(n)))
+		buf := bb.Bytes()[:bitio.BitsByteCount(n)]
+		if _, err := bitio.ReadAtFull(c, buf, n, 0); err != nil {
+			return "bits:read-error:" + err.Error()
+		}
+		return fmt.Sprintf("bits:%d:%s", n, sumHex(buf))
 	case *big.Int:
 		return "big:" + x.String()
 	case float64, float32, int, int64, uint64, bool, string:
@@ -188,13 +205,6 @@ func render(x any) string {
 	return fmt.Sprintf("%T", x)
 }
 
-type bitioBuf struct{ b *bytes.Buffer }
-
-func (w *bitioBuf) WriteBits(p []byte, nBits int64) (int64, error) {
-	w.b.Write(p[:bitio.BitsByteCount(nBits)])
-	return nBits, nil
-}
-
 // runJob returns the hash of the job's complete observable result.
 func runJob(j job) (h string) {
 	defer func() {
@@ -204,6 +214,34 @@ func runJob(j job) (h string) {
 		}
 	}()
 	data := dataOf(j.Path)
+	if j.Kind == "tree" && len(j.Chunks) > 0 {
+		g, gerr := interp.DefaultRegistry.Group(j.Format)
+		if gerr != nil {
+			return "group-error"
+		}
+		var parts []bitio.ReadAtSeeker
+		prev := 0
+		for _, c := range append(append([]int{}, j.Chunks...), len(data)) {
+			if c < prev || c > len(data) {
+				continue
+			}
+			parts = append(parts, bitio.NewBitReader(data[prev:c], -1))
+			prev = c
+		}
+		mr, merr := bitio.NewMultiReader(parts...)
+		if merr != nil {
+			return "multireader-error"
+		}
+		v, _, err := decode.Decode(context.Background(), mr, g, decode.Options{IsRoot: true, FillGaps: true, Force: j.Force, Description: "verif"})
+		var w bytes.Buffer
+		if err != nil {
+			fmt.Fprintf(&w, "error: %s\n", err.Error())
+		}
+		if v != nil {
+			dumpValue(&w, v, "")
+		}
+		return sumHex(w.Bytes())
+	}
 	if j.Kind == "tree" {
 		v, _, err := fqx.Decode(context.Background(), data, j.Format, j.Force)
 		var w bytes.Buffer
@@ -312,6 +350,7 @@ var (
 // reference computes (once, sequentially, before any concurrency) the first
 // in-process result of a job.
 func reference(j job) string {
+	j = j.flat()
 	k := j.key()
 	refMu.Lock()
 	defer refMu.Unlock()
@@ -346,11 +385,17 @@ func runSchedule(s schedule) (sig, msg string) {
 				for _, j := range g {
 					h := runJob(j)
 					harness.Label("job-"+j.Kind, 1)
+					if len(j.Chunks) > 0 {
+						harness.Label("job-chunked-input", 1)
+					}
 					harness.Label("jobs-run-concurrently", 1)
 					if want := reference(j); h != want {
 						mu.Lock()
 						if sig == "" {
 							sig = "result-differs-from-first-run:" + j.Kind
+							if len(j.Chunks) > 0 {
+								sig = "chunked-input-result-differs-from-flat:" + j.Kind
+							}
 							msg = fmt.Sprintf("batch %d goroutine %d: job %s gave %s, its first run in this process gave %s", bi, gi, j.key(), h, want)
 						}
 						mu.Unlock()
@@ -387,6 +432,16 @@ func TestSchedules(t *testing.T) {
 						j = hot // the same job many times
 					default:
 						j = treeJobs[rapid.IntRange(0, len(treeJobs)-1).Draw(rt, "tj")]
+						if rapid.IntRange(0, 3).Draw(rt, "chunked") == 0 {
+							n := len(dataOf(j.Path))
+							nc := rapid.IntRange(1, 4).Draw(rt, "nchunks")
+							var cs []int
+							for c := 0; c < nc && n > 1; c++ {
+								cs = append(cs, rapid.OneOf(rapid.IntRange(1, min(n-1, 64)), rapid.IntRange(1, n-1)).Draw(rt, "cut"))
+							}
+							sort.Ints(cs)
+							j.Chunks = cs
+						}
 						if j.Format != "probe" && rapid.IntRange(0, 9).Draw(rt, "force") == 0 {
 							j.Force = !strings.Contains("ar zip tar mp4 probe bplist midi matroska gzip", j.Format)
 						}
@@ -439,6 +494,55 @@ func TestOrders(t *testing.T) {
 		}
 		c.SetNonTrivial(n >= 4)
 	})
+}
+
+// chunked inputs: the same bytes presented as a concatenation of parts (what
+// fq builds for `[a, b] | tobytes | fmt` and multi-member data) must decode to
+// the same tree as the flat buffer. Readers short-read at part boundaries, so
+// code that assumes one read fills its buffer sees zeros -- or, with a reused
+// buffer, bytes of an earlier decode (seed C18-3).
+func TestChunkedInputs(t *testing.T) {
+	buildPool()
+	per := harness.N(3, 24)
+	seed := harness.SeedFor("TestChunkedInputs")
+	for i, fj := range treeJobs {
+		if !harness.Mine(i) {
+			continue
+		}
+		n := len(dataOf(fj.Path))
+		if n < 2 {
+			continue
+		}
+		want := reference(fj)
+		for k := 0; k < per; k++ {
+			seed = seed*6364136223846793005 + 1442695040888963407
+			r := seed >> 20
+			var cs []int
+			switch k % 3 {
+			case 0: // one cut near the start, where headers with raw/hex fields live
+				cs = []int{1 + int(r%uint64(min(n-1, 96)))}
+			case 1: // one cut anywhere
+				cs = []int{1 + int(r%uint64(n-1))}
+			default: // many small parts
+				step := 1 + int(r%13)
+				for c := step; c < n && len(cs) < 64; c += step {
+					cs = append(cs, c)
+				}
+			}
+			j := fj
+			j.Chunks = cs
+			// something else in between, so that a recycled buffer holds foreign bytes
+			other := treeJobs[int((r>>8)%uint64(len(treeJobs)))]
+			runJob(other)
+			h := runJob(j)
+			harness.Count(harness.HashInts(91, uint64(i), uint64(k), harness.E.Seed), true, "chunked-input-decode", fmt.Sprintf("chunk-shape-%d", k%3))
+			if h != want {
+				if harness.Violate("TestChunkedInputs", "chunked-input-result-differs-from-flat:tree", fmt.Sprintf("job %s gave %s, the flat buffer gave %s", j.key(), h, want), map[string]any{"job": j}) {
+					t.Fail()
+				}
+			}
+		}
+	}
 }
 
 // cold start: fresh processes whose FIRST use of the shared registry is
